@@ -90,6 +90,11 @@ func main() {
 	switch os.Args[1] {
 	case "exec":
 		cmdExec(os.Args[2:])
+	case "yieldify":
+		if err := yieldifyFile(os.Args[2], os.Args[3]); err != nil {
+			fmt.Fprintln(os.Stderr, err)
+			os.Exit(1)
+		}
 	default:
 		fmt.Fprintln(os.Stderr, "unknown command", os.Args[1])
 		os.Exit(2)
